@@ -104,7 +104,7 @@ use vcore::{
 
 struct PoolAlloc;
 const BIG: usize = 16 << 20;
-const POOL_SLOTS: usize = 28;
+const POOL_SLOTS: usize = 44;
 static POOL: Mutex<[(usize, usize, usize); POOL_SLOTS]> = Mutex::new([(0, 0, 0); POOL_SLOTS]);
 
 impl PoolAlloc {
@@ -184,7 +184,7 @@ const MEMW: u64 = VM_MAX_RAM;
 /// A buffer longer than this makes a state "huge" (never stored / snapshotted).
 const HUGE_LEN: usize = 1 << 22;
 /// Threads running huge tails (each holds up to 4 x 64 MiB).
-const HUGE_PAR: usize = 6;
+const HUGE_PAR: usize = 10;
 
 #[derive(Debug, Clone, Serialize, Deserialize, PartialEq, Eq, Hash)]
 enum Act {
@@ -635,6 +635,11 @@ impl Mem {
         let huge = s.is_huge();
         // refused operations must leave the accessible memory unchanged
         let unchanged = |n: &St, what: &str| -> bool {
+            if huge {
+                // 64 MiB states are always content-checked against the (unchanged)
+                // reference right after the step, which subsumes this comparison
+                return true
+            }
             match guard::catch_any(|| n.mem == s.mem) {
                 Ok(true) => true,
                 other => {
